@@ -162,6 +162,7 @@ func runC20(c *fw.Ctx) {
 	idx := 0
 	if c.Shard == 0 {
 		c20OddNames(c)
+		c20Identity(c)
 	}
 	for _, sg := range sigs {
 		sg := sg
